@@ -16,6 +16,7 @@ EXTENDS Clauses
 (* a different URI in the bundle.                                            *)
 ShadowEntry(step, e) ==
   /\ step.parents[e.s] # ""
+  /\ e.via = "str"                  \* names resolved from QualifiedName objects are registered in the bundle itself
   /\ e.up.ok /\ Uri(e.up) = e.uri
   /\ e.now.ok /\ Uri(e.now) # e.uri
 
